@@ -113,7 +113,7 @@ func bigContents() []string {
 func runC06(c *Ctx) {
 	small := texts("ab\n", c.Pick(3, 4))
 	contents := append(append([]string{}, small...), bigContents()...)
-	contents = append(contents, "abaaa", "aaaba", "a-aaa-b", "aabb", "bbaa\nab", "aab aab")
+	contents = append(contents, "abaaa", "aaaba", "a-aaa-b", "aabb", "bbaa\nab", "aab aab", "a%b", "100%s a %d b%", "%%a%v\n%")
 	modes := []engine.ReplaceMode{engine.NOTHING, engine.NEW, engine.OVERWRITE}
 	// "dir-arg": no stale output, and the directory that holds the files is the argument instead of the files
 	pre := []string{"none", "stale-longer", "stale-shorter", "dir-arg"}
